@@ -180,7 +180,36 @@ def check_mean(a, m1, m2):
     return None
 
 
+def check_array(as_, k, m1s, m2s):
+    """equal-shaped array arguments are handled element-wise, including arrays in which only some elements take the log form"""
+    with np.errstate(all="ignore"):
+        r = Pk(np.array(as_), k, np.array(m1s), np.array(m2s))
+    for i in range(len(as_)):
+        s_ = real_pk(as_[i], k, m1s[i], m2s[i])
+        ri = float(r[i])
+        sc = scale_of(as_[i], k, m1s[i], m2s[i]) if m2s[i] > 0 and m1s[i] > 0 else 1.0
+        if math.isnan(s_) != math.isnan(ri):
+            v = ri if math.isnan(s_) else s_
+            if abs(v - RES) <= 1e-12 * sc:
+                continue       # the two evaluation paths (SIMD / scalar pow) fall on either side of the resolution threshold
+        if math.isnan(s_) != math.isnan(ri) or (not math.isnan(s_) and abs(s_ - ri) > 1e-13 * sc):
+            return {"clause": "array arguments are handled element-wise", "element": i, "array_value": repr(ri), "scalar_value": repr(s_),
+                    "n_log_elements": sum(1 for a in as_ if -a == k)}
+    return None
+
+
 def sweep(ctx):
+    for _ in range(ctx.n(300, 5000) * getattr(ctx, "effort", 1)):
+        ln = ctx.rng.randint(2, 10)
+        k = ctx.rng.choice(KS)
+        els = [gen(ctx.rng) for _ in range(ln)]
+        as_ = [(-k if ctx.rng.random() < 0.4 else e[0]) for e in els]
+        m1s, m2s = [e[2] for e in els], [e[3] for e in els]
+        bad = check_array(as_, k, m1s, m2s)
+        nlog = sum(1 for a in as_ if -a == k)
+        ctx.sweep_case("pk_array", (tuple(as_), k, tuple(m1s), tuple(m2s)), bad is None,
+                       {"failing_input": {"call": "pk_array", "args": {"a": [jf(x) for x in as_], "k": jf(k), "m1": [jf(x) for x in m1s], "m2": [jf(x) for x in m2s]}},
+                        "observed": bad}, branch="mixed" if 0 < nlog < ln else ("alllog" if nlog else "allpow"))
     n = ctx.n(6000, 150000) * getattr(ctx, "effort", 1)
     for _ in range(n):
         a, k, m1, m2 = gen(ctx.rng)
@@ -200,6 +229,8 @@ def sweep(ctx):
 
 
 def replay(ctx, fi):
+    if fi["call"] == "pk_array":
+        return _replay_array(fi)
     args = [unjf(x) for x in fi["args"]]
     if fi["call"] == "pk":
         return check_one(*args)
@@ -210,12 +241,19 @@ def replay(ctx, fi):
     raise ValueError(fi["call"])
 
 
+def _replay_array(fi):
+    a = fi["args"]
+    return check_array([unjf(x) for x in a["a"]], unjf(a["k"]), [unjf(x) for x in a["m1"]], [unjf(x) for x in a["m2"]])
+
+
 def classify(entry, failure):
     """C12-cancellation: the accuracy miss is explained by float cancellation of the closed form
     (|error| within the first-order rounding bound); anything larger is a new violation."""
     fi = failure.get("failing_input") or {}
     obs = failure.get("observed") or {}
     if entry.get("classifier") != "float_cancellation":
+        return False
+    if fi.get("call") == "pk_array":
         return False
     args = [unjf(x) for x in fi.get("args", [])]
     if fi.get("call") == "pk":
